@@ -120,6 +120,8 @@ type Options struct {
 	// SchemeAccounts: that many funded secp256k1 accounts and as many Ethereum-style secp256k1 accounts
 	// on top of AcctKeys (Network.SecpKeys, Network.EthKeys), so that blocks mix all four signature schemes.
 	SchemeAccounts int
+	// TokensPerBlock: Config.InitialTokensPerBlock (0 = the default 80e6 micro tokens minted per block).
+	TokensPerBlock uint64
 }
 
 // detKeyBytes derives 32 deterministic bytes for key number i of a kind.
@@ -266,6 +268,9 @@ func NewNetwork(seed int64, nValidators int, stakes []uint64, nAccounts int, opt
 	cfg.StoreConfig.InMemory = true
 	cfg.MetricsConfig.MetricsEnabled = false
 	cfg.MempoolConfig.LazyMempoolCheckFrequencyS = 0
+	if opt.TokensPerBlock != 0 {
+		cfg.InitialTokensPerBlock = opt.TokensPerBlock
+	}
 	if opt.ProposalVoteWindow {
 		// a block time of ~12 days: the BFT's phase timer never fires and the vote window never closes
 		cfg.NewHeightTimeoutMs = 1_000_000_000
@@ -623,6 +628,26 @@ func (nd *Node) Balance(address []byte) uint64 {
 		return 0
 	}
 	return a.Amount
+}
+
+// PoolAmount is the balance of a pool of the node's working state (0 when absent).
+func (nd *Node) PoolAmount(id uint64) uint64 {
+	nd.enter()
+	p, err := nd.C.FSM.GetPool(id)
+	if err != nil || p == nil {
+		return 0
+	}
+	return p.Amount
+}
+
+// Order reads a sell order of the order book of committee chainId (nil when absent).
+func (nd *Node) Order(chainId uint64, id []byte) *lib.SellOrder {
+	nd.enter()
+	o, err := nd.C.FSM.GetOrder(id, chainId)
+	if err != nil {
+		return nil
+	}
+	return o
 }
 
 // BlockEvents returns the indexed events of a height, marshalled, in index order.
